@@ -47,7 +47,7 @@ def grid_cfg(rnd, G, mode, op, families, faces, steps, kvs, with_cells=True, pro
         "G": G, "Mode": '"%s"' % mode, "Op": '"%s"' % op, "Faces": set(faces),
         "XS": set(xs), "YS": set(ys), "XH": inner(rnd, xs, 3), "YH": inner(rnd, ys, 3),
         "Steps": set(steps), "StairN": {2, 3, min(5, S)}, "Families": "{" + ", ".join('"%s"' % f for f in families) + "}",
-        "KVs": set(kvs), "QSeed": rnd.randrange(1000), "NQ": nq, "WithCells": with_cells, "Prove": prove},
+        "KVs": set(kvs), "QSeed": rnd.randrange(1000), "NQ": nq, "Parts": 4, "WithCells": with_cells, "Prove": prove},
         invariants=invariants or GRID_INV)
 
 
